@@ -67,7 +67,7 @@ def run_case(args):
         peak_read = al.peak
         if n > 1:
             ic = G.Interp(cprog, X14.RatDom()); ic.prog_params = cparams; log = []
-            X14.install_storage_hooks(ic, log); al.install(ic)
+            X14.install_storage_hooks(ic, log); al.install(ic); ic.set_global("vp_thrown", 0); ic.set_global("vp_guard_armed", False)
             ic.hooks["convoluted_blossom"] = lambda it_, a: G.FV(Fr(0), Fr(0))
             gf = lambda g: it.globals[g].cells[0]
             for g, src in (("ndim", "ndim"), ("order", "order"), ("knots", "knots"), ("nknots", "nknots"), ("extents", "extents"), ("vp_this_naxes", "naxes"), ("vp_this_strides", "strides"), ("vp_this_coefficients", "coefficients")):
